@@ -65,6 +65,9 @@ def check_coherence(obj, X, y, requested):
     cast = [c for lst in obj.features_casting.values() for c in lst]
     if set(cast) != fs:
         errs.append(("attr-casting", f"features_casting refers to {sorted(cast)} but kept features are {sorted(fs)}"))
+    stale = sorted(r for r, lst in obj.features_casting.items() if not lst)
+    if stale and not multiclass:  # (MulticlassCarver keeps the raw column as key even when no per-class copy survives)
+        errs.append(("attr-casting-stale", f"features_casting keeps an (empty) entry for {stale}, none of whose features is kept"))
     # values_orders well-formed and covering
     for f in feats:
         if f not in obj.values_orders:
@@ -121,6 +124,18 @@ def check_coherence(obj, X, y, requested):
                 errs.append(("dropped-feature-touched", f"dropped feature {f!r} is modified by transform"))
         if list(out.index) != list(X.index):
             errs.append(("transform-index", "transform changed the index"))
+        # a dropped feature is no longer an input of the fitted object: a frame without its column is transformed alike
+        for f in requested:
+            if f in fs or multiclass or f not in X:
+                continue
+            try:
+                out2 = obj.transform(X.drop(columns=[f]))
+                for g in feats:
+                    a, b = out2[g].tolist(), out[g].tolist()
+                    if not all((isnan(u) and isnan(v)) or u == v for u, v in zip(a, b)):
+                        errs.append(("dropped-feature-needed", f"without the column of the dropped feature {f!r}, {g!r} is transformed differently"))
+            except Exception as exc:  # noqa
+                errs.append(("dropped-feature-needed", f"transform of a frame without the column of the dropped feature {f!r} raised {type(exc).__name__}: {str(exc)[:100]}"))
     except Exception as exc:  # noqa
         errs.append(("transform-raises", f"transform(X_train) raised {type(exc).__name__}: {str(exc)[:100]} ({space.innermost_frame(exc)})"))
     return errs
